@@ -39,7 +39,8 @@ def generate(rnd, tier):
         tgt = {"buf": ggrid(6, 9), "cur": [rnd.randint(0, 7), rnd.randint(0, 10)]}
         cases.append({"op": "draw", "target": tgt, "src": ggrid(5, 7), "row": rnd.choice([None, rnd.randint(0, 8)]),
                       "col": rnd.choice([None, rnd.randint(0, 11)]), "block": rnd.random() < 0.5})
-        text = "".join(rnd.choice("ab \n") for _ in range(rnd.randint(0, 14)))
+        # (now and then with the characters other line-splitting routines take for line ends: for write() only '\n' is one, everything else is a cell)
+        text = "".join(rnd.choice("ab \n" if rnd.random() < 0.8 else "ab \n\r\x0b\x0c\x1c\x1d\x1e\x85\u2028\u2029") for _ in range(rnd.randint(0, 14)))
         cases.append({"op": "write", "target": tgt, "text": text, "row": rnd.choice([None, rnd.randint(0, 8)]), "col": rnd.choice([None, rnd.randint(0, 11)]),
                       "width": rnd.choice([None, None, 0, 1, 2, 3, 6, -1]), "maxw": rnd.choice([None, None, None, 0, 4, 12]), "block": rnd.random() < 0.5})
     # sequences of draws and writes on one widget object (what one operation leaves behind must not matter to the next); a source widget may be drawn twice
@@ -51,7 +52,7 @@ def generate(rnd, tier):
                 prev = [j for j, p_ in enumerate(steps) if p_["op"] == "draw" and p_.get("src_ref") is None]
                 if prev and rnd.random() < 0.25: st["src_ref"] = rnd.choice(prev); st["src"] = steps[st["src_ref"]]["src"]
             else:
-                st = {"op": "write", "text": "".join(rnd.choice("ab \n") for _ in range(rnd.randint(1, 8))), "row": rnd.choice([None, rnd.randint(0, 8)]),
+                st = {"op": "write", "text": "".join(rnd.choice("ab \n" if rnd.random() < 0.85 else "a\n\r\x0c\x85\u2028") for _ in range(rnd.randint(1, 8))), "row": rnd.choice([None, rnd.randint(0, 8)]),
                       "col": rnd.choice([None, rnd.randint(0, 9)]), "width": rnd.choice([None, None, 1, 2, 3, 6]), "block": rnd.random() < 0.5}
             steps.append(st)
         cases.append({"op": "gridseq", "target": {"buf": ggrid(3, 5), "cur": [rnd.randint(0, 4), rnd.randint(0, 6)]}, "steps": steps})
